@@ -688,8 +688,13 @@ def simplify_if_control_flow(source: str) -> str:
 
         additions = set()
         replacements = {}
-        for new_variable_number, (names, indexes) in enumerate(something.items()):
-            new_variable = ast.Name(id=f"var_{new_variable_number + 1}")
+        # The new variables must not be names that the branches already use
+        used_names = {name.id for name in core.walk(node, ast.Name)}
+        unused_names = (
+            f"var_{number}" for number in itertools.count(1) if f"var_{number}" not in used_names
+        )
+        for names, indexes in something.items():
+            new_variable = ast.Name(id=next(unused_names))
             for src_list, body, name in zip(body_equivalent_function_srcs, bodies, names):
                 assign = ast.Assign(targets=[new_variable], value=ast.Name(id=name))
                 ast.copy_location(assign, body[0])
